@@ -1,4 +1,5 @@
 import os
+import tempfile
 from .. import pure, common as C
 
 ENTRY = {0: "TCP remote", 1: "Unix-socket remote", 2: "SOCKS5 CONNECT", 3: "SOCKS4", 4: "SOCKS4a", 5: "HTTP CONNECT"}
@@ -25,7 +26,8 @@ class C01(pure.Spec):
             "0..8 kB. Observed: bytes received at both ends compared byte by byte with the peer's stream, how each side "
             "saw the end (clean EOF / reset / still open after 6 s), per UDP client the replies that are its own, foreign "
             "or duplicate replies, the source address of replies, RFC 1928 header well-formedness, datagrams the target "
-            "got. Compared exactly with what a direct connection shows (Tunnel/Direct.v). Cells = (entry, shape set).")
+            "got. Compared exactly with what a direct connection shows (Tunnel/Direct.v); a UDP case whose only deviation is a "
+            "missing reply is re-run up to twice (datagrams may be dropped under load, never blocked: C11). Cells = (entry, shape set).")
     assumptions = ["sampled scripts on loopback under the real runtime's interleavings; the kernel's TCP/UDP/Unix sockets are trusted",
                    "the per-relay specification used by the composition theorem (each relay forwards a prefix in order and passes "
                    "EOF on after draining) is proved of the bridge model (C01_bridge_is_relay) and of each direction of the "
@@ -52,6 +54,35 @@ class C01(pure.Spec):
                 i += 3 + nl + nt
             return "tcp/entry%d.%d/%s" % (t[2], t[3], "".join(sorted(set(shapes))))
         return "udp/entry%d/shared%d/v%d/clients%d" % (t[2], t[3], t[4], t[5])
+
+    def equal(self, case, impl, model):
+        if impl == model:
+            return True
+        t = case.split()
+        if t[1] != "2":
+            return False
+        # UDP is allowed to lose a datagram under load (the tunnel drops rather than blocks, C11): a case whose only
+        # deviation is a missing reply is re-run (up to twice); a systematic loss repeats, a transient one does not
+        for attempt in range(3):
+            i, m = [int(x) for x in impl.split()], [int(x) for x in model.split()]
+            if len(i) != len(m):
+                return False
+            only_loss = all(a[1] == 0 and a[2] == 1 and a[3] == 1 and a[0] <= b[0] and a[4] <= b[4]
+                            for a, b in ((i[k:k + 5], m[k:k + 5]) for k in range(0, len(m), 5)))
+            if not only_loss:
+                return False
+            if i == m:
+                return True
+            if attempt == 2:
+                return False
+            with tempfile.NamedTemporaryFile("w", suffix=".cases", delete=False) as f:
+                f.write(case + "\n")
+            try:
+                _, impls = C.run_harness([self.bin_path("release"), "x", "--replay", f.name])
+                impl = impls[0]
+            finally:
+                os.unlink(f.name)
+        return False
 
     def classify(self, case, impl, model):
         t = [int(x) for x in case.split()]
